@@ -9,25 +9,45 @@ SPEC = dict(
         category='proof',
         text='Lean theorems over a hand model of MessageAny/CommonMsgInfo/StateInit/CurrencyCollection serialize+deserialize '
              '(Model/Message.lean, built on the Builder/Slice model) against an independent block.tlb reading (Spec/Tlb/Message.lean): '
-             'serialisation never runs out of room when the header leaves 3 bits (bound shown tight), the cell decodes under the spec '
-             'to the same message, and the parser agrees with the spec decoder on every valid encoding (all four Either choices). '
-             'Model = library is checked differentially on a boundary sweep of the joint bit/ref budget; the property itself is '
-             'evaluated on the library against a second, Python transcription of the schema.',
-        level_note='theorems are about the hand model; model = pytoniq-core only on the generated inputs (sampled). The extra-currency '
-                   'dictionary and the library field are optional root references (dictionary contents are C09/C10). '
-                   'HighloadWalletData.old_queries is a recorded finding (F23).',
+             'serialisation never runs out of room when the header leaves 3 bits (bound shown tight; no bound needed at all for '
+             'Message X proper without anycast in an internal header: header <= 1007 bits), the cell decodes under the spec '
+             'to the same message, the parser agrees with the spec decoder on every valid encoding (all four Either choices), and the '
+             'strict reader (address classes of Message X) is sound/complete w.r.t. the union reader. '
+             'The same three theorems (serialize = spec encoding and never fails for fields in range; spec decoder inverts it; own '
+             'parser = spec decoder on every cell the decoder accepts) for every stand-alone wrapper: StateInit, CurrencyCollection, '
+             'WalletV3Data, WalletV4Data, HashUpdate, NftItemData, NftItemSaleFees, NftItemSaleData (Spec/Tlb/Wrappers.lean from the '
+             'contracts\' storage layouts, Model/Wrappers.lean from the code). The two half-implemented wrappers are characterised '
+             'exactly: HighloadWalletData.serialize writes the value with old_queries emptied, so the round trip holds iff old_queries '
+             'is empty (c15_highload_round_trip_iff); WalletMessage.serialize is correct, WalletMessage.deserialize returns None on '
+             'every cell (c15_wallet_message_own_parser_stub) -- finding F23. '
+             'Model = library is checked differentially on a boundary sweep of the joint bit/ref budget and on boundary values of '
+             'every wrapper field; the property itself is evaluated on the library against a second, Python transcription of the '
+             'schemas (library serialize -> spec decoder; spec encoding -> library parser).',
+        level_note='theorems are about the hand model; model = pytoniq-core only on the generated inputs (sampled). Dictionaries '
+                   '(extra currencies, library, plugins, old_queries) are optional root references (dictionary contents are C09/C10). '
+                   'bits256 fields must be 32 bytes: the library does not check the length (a shorter key serialises to a cell that is '
+                   'not a valid value; shown as an example, outside the property). F23 (HighloadWalletData.old_queries, '
+                   'WalletMessage.deserialize) is a recorded finding with two keys.',
         technique='Lean 4 proof (hand model) + differential correspondence with the library'),
     design_ref='DESIGN.md §6 C15',
     rule='boundary sweep: header kind (internal / ext-in / ext-out) x extra-currency dict (0/1/many entries) x state-init shape '
          '(absent, 0..3 refs, split_depth, tick-tock) x body bits {0, 1, each exact inline limit -1/0/+1, 1023} x body refs 0..4, plus '
          'seeded random messages (addresses none/extern/std/anycast, boundary amounts); every message: library serialize -> Python spec '
-         'decoder + Lean spec decoder + Lean model (cell hash); the spec encodings for all four Either choices -> library deserialize + '
-         'Lean model parser; distinct = distinct (message, check); non-trivial = every case',
+         'decoder + Lean spec decoder (+ strict reader) + Lean model (cell hash); the spec encodings for all four Either choices -> library '
+         'deserialize + Lean model parser. Wrappers: per class the boundary values of every field (0, 1, 2^n-1, default wallet id; '
+         'addr_none / std / anycast / extern 0,9,511 bits; Grams per byte length; empty / non-empty dictionaries; cells that exactly fill or '
+         'overflow 1023 bits), seeded random values, out-of-range values (model error points) and truncated / extended / re-tagged cells '
+         '(parsers on foreign cells): library serialize -> Python spec decoder, Python spec encoding -> library deserialize, Lean model '
+         'serialize/parse and Lean spec encode/decode on the same cells; distinct = distinct (value, check); non-trivial = every case',
     trusted_base=['Spec/Tlb/Message.lean is the reading of block.tlb (Message X, CommonMsgInfo, StateInit, CurrencyCollection)',
-                  'Model/Message.lean mirrors tlb/transaction.py, tlb/account.py, tlb/block.py (currency), tlb/custom/*.py by hand',
-                  'harness/gen/msgs.py: second transcription of the schema (oracle), canonical strings, library object construction',
-                  'extra-currency dictionaries are serialised/parsed by the library HashMap (C09/C10) and treated as opaque root cells'],
-    assumptions=['correspondence is sampled differential testing', 'referenced cells (code/data/library/body/dict root) are ordinary cells',
+                  'Spec/Tlb/Wrappers.lean is the reading of the wallet v3/v4/highload-v2, NFT item (TEP-62) and getgems fix-price sale '
+                  'storage layouts and of update_hashes#72',
+                  'Model/Message.lean, Model/Wrappers.lean mirror tlb/transaction.py, tlb/account.py, tlb/block.py (currency), tlb/utils.py '
+                  '(HashUpdate), tlb/custom/*.py by hand',
+                  'harness/gen/msgs.py, harness/gen/wrappers.py: second transcription of the schemas (oracle), canonical strings, library '
+                  'object construction',
+                  'dictionaries are serialised/parsed by the library HashMap (C09/C10) and treated as opaque root cells'],
+    assumptions=['correspondence is sampled differential testing', 'referenced cells (code/data/library/body/dict root/content) are ordinary cells',
                  'cells of depth > 1023 (Cell constructor raises) are outside "lack of room"'],
 )
 
